@@ -719,8 +719,8 @@ def c17(tier, seed, work):
     a, i = suite_for(seed, 3)
     d = 2 if tier == "quick" else 3
     res = add_console(res, work, [dict(name="c17-hist-s", insess=True, cmds="CmdsAB", maxcalls=2 if tier == "quick" else 3, maxatt=d if tier == "quick" else 2, kinds="KindsRetry", auth=a, integ=i),
-                                  # (eight outcome kinds outside a session: three calls of two attempts are beyond what TLC enumerates in time; two calls of three are not)
-                                  dict(name="c17-hist-n", insess=False, cmds="CmdsAR", maxcalls=2, maxatt=d, kinds="KindsSessionless", auth=1, integ=1)],
+                                  # (eight outcome kinds outside a session: more than two calls of two attempts is beyond what TLC enumerates in time; thorough adds a command)
+                                  dict(name="c17-hist-n", insess=False, cmds="CmdsAR" if tier == "quick" else "CmdsABR", maxcalls=2, maxatt=2, kinds="KindsSessionless", auth=1, integ=1)],
                       "Histories: every outcome sequence of Console.tla for two (thorough: three) consecutive calls on one connection / session; "
                       "the result and transmissions of each later call must be those the reference model predicts from that call's own replies.")
     res = add_hs(res, work, [dict(name="c17-long", family="long", tier=tier, seed=seed)],
